@@ -70,13 +70,19 @@ func VH_C03_layout() {
 	var want []string
 	// level field
 	levelName := "level"
-	switch zzverif.Choice(3) {
+	switch zzverif.Choice(5) {
 	case 1:
 		LevelFieldName = ""
 		levelName = ""
 	case 2:
 		LevelFieldName = "L"
 		levelName = "L"
+	case 3:
+		// a custom marshaller with a text for every level, NoLevel included: the field's
+		// presence depends on the level, not on the text
+		LevelFieldMarshalFunc = func(Level) string { return "X" }
+	case 4:
+		LevelFieldMarshalFunc = func(Level) string { return "" }
 	}
 	// derivation chain: context fields root-first, hooks ancestors-first
 	var ctxKeys []string
